@@ -10,7 +10,7 @@ everything served from genesis) | `hostile <h> <diff>` ⇒ `addDiff=<panic|diffe
 Snapshots (the node hash is the symbolic term of what IAVL hashes):
 `new snap <height>` | `o <node>`* `oend` (the clean archive's decoded nodes: re-imported, re-exported, re-chunked) |
 a corrupted archive's decoded nodes: `csame` | `cdelta <i> <node>` | `c <node>`* `cend full|decodeerr` | `copenerr`
-⇒ `ok-same` / `ok-forged` / `err` / `panic`.  `<node>` = `<key> <height> <version> <value> <emptyValue>`. -/
+⇒ `ok-same` / `ok-forged` / `err` / `panic`.  `switchwrites` ⇒ number of atomic write groups of the switch.  `<node>` = `<key> <height> <version> <value> <emptyValue>`. -/
 namespace IdenaModel.Drv.C11
 open IdenaModel.Sync IdenaModel.Drv
 
@@ -211,6 +211,7 @@ def step (st : St) (line : String) : St × String :=
     | some i, some w => if i < st.orig.size then (st, classify st (st.orig.set! i w).toList false) else (st, "bad-op")
     | _, _ => (st, "bad-op")
   | ["copenerr"] => (st, "err")
+  | ["switchwrites"] => (st, toString switchWriteGroups)   -- database write events of the real AtomicSwitchToPreliminary
   | _ => (st, "bad-op")
 
 end IdenaModel.Drv.C11
